@@ -13,6 +13,8 @@ written from the wire specification).
   * `parse_encRec_cons`, `parse_encRecs`    the reference parser inverts the reference record encoder `encRec`
   * `parse_tag_*`                           one record written by the model = one reference record
   * `parse_scalar_*`                        per scalar codec: tag ++ `encode c v fl` parses as one `WireVal`
+                                            (incl. `parse_scalar_sfixed32/64` + `decodeOne_sfixed32/64`: `int32/int64`
+                                            tagged `fixed32/fixed64` = little-endian two's complement, read back signed)
 -/
 namespace Enc.Lemmas.ProtoWire
 open Enc Enc.Model.Proto Enc.Spec.Protobuf
@@ -461,6 +463,74 @@ theorem parse_scalar_fixed64 (fuel n : Nat) (h0 : 0 < n) (hn : n < 2 ^ 29) (i : 
       = (parse fuel rest).map ((n, .i64 (natLE (BitVec.ofInt 64 i).toNat 8)) :: ·) := by
   simp only [encode, hw, if_true]
   rw [show Codec.fixed64.wire = Wire.fixed64 from rfl, parse_tag_fixed64 fuel n h0 hn, le64_eq_natLE]
+
+/-! ### sfixed32 / sfixed64 (`int32` / `int64` tagged `fixed32` / `fixed64`): two's complement in 4 / 8 bytes -/
+
+/-- two's complement image of an integer in 32 bits (reference side; the 64-bit one is `Spec.Protobuf.ofInt64`) -/
+def ofInt32 (i : Int) : Nat := (i % 2 ^ 32).toNat
+
+theorem ofInt32_lt (i : Int) : ofInt32 i < 2 ^ 32 := by
+  unfold ofInt32; omega
+
+theorem toNat_ofInt_32 (i : Int) : (BitVec.ofInt 32 i).toNat = ofInt32 i := by
+  rw [BitVec.toNat_ofInt]; rfl
+
+theorem toNat_ofInt_64 (i : Int) : (BitVec.ofInt 64 i).toNat = ofInt64 i := by
+  rw [BitVec.toNat_ofInt]; rfl
+
+theorem ofInt32_nonneg (i : Int) (h0 : 0 ≤ i) (h1 : i < (2:Int)^32) : ofInt32 i = i.toNat := by
+  simp only [Int.reducePow] at h1
+  unfold ofInt32; omega
+
+theorem ofInt64_nonneg (i : Int) (h0 : 0 ≤ i) (h1 : i < (2:Int)^64) : ofInt64 i = i.toNat := by
+  simp only [Int.reducePow] at h1
+  unfold ofInt64; omega
+
+/-- **wire level, sfixed32**: an `int32` tagged `fixed32` is written as one I32 record whose four bytes are the
+little-endian two's complement of the value -/
+theorem parse_scalar_sfixed32 (fuel n : Nat) (h0 : 0 < n) (hn : n < 2 ^ 29) (i : Int) (fl : Flags)
+    (hw : (i != 0 || fl.wantzero) = true) (rest : Bytes) :
+    parse (fuel + 1) (encodeTag n Codec.sfixed32.wire ++ encode .sfixed32 (.int i) fl ++ rest)
+      = (parse fuel rest).map ((n, .i32 (natLE (ofInt32 i) 4)) :: ·) := by
+  simp only [encode, hw, if_true]
+  rw [show Codec.sfixed32.wire = Wire.fixed32 from rfl, parse_tag_fixed32 fuel n h0 hn, le32_eq_natLE, toNat_ofInt_32]
+
+/-- **wire level, sfixed64** -/
+theorem parse_scalar_sfixed64 (fuel n : Nat) (h0 : 0 < n) (hn : n < 2 ^ 29) (i : Int) (fl : Flags)
+    (hw : (i != 0 || fl.wantzero) = true) (rest : Bytes) :
+    parse (fuel + 1) (encodeTag n Codec.sfixed64.wire ++ encode .sfixed64 (.int i) fl ++ rest)
+      = (parse fuel rest).map ((n, .i64 (natLE (ofInt64 i) 8)) :: ·) := by
+  simp only [encode, hw, if_true]
+  rw [show Codec.sfixed64.wire = Wire.fixed64 from rfl, parse_tag_fixed64 fuel n h0 hn, le64_eq_natLE, toNat_ofInt_64]
+
+/-- the reference decoder reads an sfixed32 payload back as the signed value -/
+theorem decodeOne_sfixed32 (fuel : Nat) (o : FieldOpt) (ho : o.fixed = true) (i : Int)
+    (h1 : -(2:Int)^31 ≤ i) (h2 : i < (2:Int)^31) (cur : Val) :
+    decodeOne (fuel + 1) (.int .i32) o (.i32 (natLE (ofInt32 i) 4)) cur = some (.int i) := by
+  simp only [decodeOne, ho, if_true]
+  rw [leNat_natLE_four _ (ofInt32_lt i)]
+  simp only [Int.reducePow] at h1 h2
+  have : (if ofInt32 i < 2 ^ 31 then (ofInt32 i : Int) else (ofInt32 i : Int) - 2 ^ 32) = i := by
+    unfold ofInt32; split <;> omega
+  rw [this]
+
+/-- the reference decoder reads an sfixed64 payload back as the signed value -/
+theorem decodeOne_sfixed64 (fuel : Nat) (o : FieldOpt) (ho : o.fixed = true) (i : Int)
+    (h1 : -(2:Int)^63 ≤ i) (h2 : i < (2:Int)^63) (cur : Val) :
+    decodeOne (fuel + 1) (.int .i64) o (.i64 (natLE (ofInt64 i) 8)) cur = some (.int i) := by
+  simp only [decodeOne, ho, if_true]
+  have hlt : ofInt64 i < 2 ^ 64 := by unfold ofInt64; omega
+  rw [leNat_natLE_eight _ hlt]
+  simp only [Int.reducePow] at h1 h2
+  have : toInt64 (ofInt64 i) = i := by
+    unfold toInt64 ofInt64; split <;> omega
+  rw [this]
+
+/-- concrete instance: `int32` tagged `fixed32`, field 1, value −5: the record `0d fb ff ff ff`, read back as −5 -/
+example : encodeTag 1 Codec.sfixed32.wire ++ encode .sfixed32 (.int (-5)) {} = [0x0d, 0xfb, 0xff, 0xff, 0xff]
+    ∧ natLE (ofInt32 (-5)) 4 = [0xfb, 0xff, 0xff, 0xff]
+    ∧ decodeOne 1 (.int .i32) { number := 1, fixed := true } (.i32 (natLE (ofInt32 (-5)) 4)) .nil = some (.int (-5)) :=
+  ⟨by decide, by decide, decodeOne_sfixed32 0 _ rfl (-5) (by decide) (by decide) _⟩
 
 theorem parse_scalar_float32 (fuel n : Nat) (h0 : 0 < n) (hn : n < 2 ^ 29) (bits : Nat) (fl : Flags)
     (hw : (bits != 0 || fl.wantzero) = true) (rest : Bytes) :
